@@ -3,7 +3,7 @@
    lazy_analysis.py, tied to /repo by the correspondence check) and Spec.v (defining sums). *)
 From Coq Require Import List Bool Arith ZArith QArith Qcanon.
 From AL Require Import Base.CaseLib C10.Model C10.Spec C10.Proofs_Sum C10.Proofs_Tab C10.Proofs_Lev
-  C10.Proofs_Kac C10.Proofs_Kcv.
+  C10.Proofs_Kac C10.Proofs_Kcv C10.Check C10.Proofs_Check.
 Import ListNotations.
 Open Scope Qc_scope.
 
@@ -190,3 +190,33 @@ Example C10_kcovar_example :
   = Ok ([1; qc (-8) 171; qc (-46) 171], qc 1681 171).
 Proof. exact kcovar_example. Qed.
 Print Assumptions C10_kcovar_example.
+
+(* ------------------------------------------------------------------ the run-time checkers are sound *)
+(* Independently of the model: whenever the boolean checker of Check.v evaluates to true on a filter (a, e)
+   OBSERVED from the implementation, that filter has the property.  For kautocor the decidable test (monic,
+   normal equations, e = energy) implies minimality among ALL monic filters of order <= p. *)
+Theorem C10_holds_lev_sound : forall c a e, holds_lev c = true -> l_obs c = FOk a e ->
+  let p := match l_order c with None => (length (l_r c) - 1)%nat | Some p => p end in
+  cf a 0 = 1 /\ (length a <= S p)%nat /\
+  (forall i, (1 <= i <= p)%nat -> yw_row (l_r c) a i = 0) /\ e = dot a (l_r c).
+Proof. exact holds_lev_sound. Qed.
+Print Assumptions C10_holds_lev_sound.
+
+Theorem C10_holds_kac_sound : forall c a e, holds_kac c = true -> a_obs c = FOk a e ->
+  let x := a_blk c in
+  let p := match a_order c with None => (length x - 1)%nat | Some p => p end in
+  cf a 0 = 1 /\ (length a <= S p)%nat /\
+  (forall i, (1 <= i <= p)%nat -> ac_row x a i = 0) /\
+  e = energy_full a x /\
+  (forall a', (length a' <= S p)%nat -> cf a' 0 = 1 -> energy_full a x <= energy_full a' x).
+Proof. exact holds_kac_sound. Qed.
+Print Assumptions C10_holds_kac_sound.
+
+Theorem C10_holds_kcv_sound : forall c a e, holds_kcv c = true -> c_obs c = FOk a e ->
+  let x := c_blk c in
+  let p := match c_order c with None => (length x - 1)%nat | Some p => p end in
+  cf a 0 = 1 /\ (length a <= S p)%nat /\
+  (forall i, (1 <= i <= p)%nat -> cov_row x a p i = 0) /\
+  e = energy_cov a x p.
+Proof. exact holds_kcv_sound. Qed.
+Print Assumptions C10_holds_kcv_sound.
